@@ -178,6 +178,10 @@ pub(crate) struct ReadyPipeQueue<T: Send + 'static> {
   pub(crate) pipes: Arc<RwLock<HashMap<usize, Arc<PipeSlot<T>>>>>,
   pub(crate) ready_rx: AsyncReceiver<Arc<PipeSlot<T>>>,
   ready_tx: AsyncSender<Arc<PipeSlot<T>>>,
+  /// Set by `close()`. Producer handles (`ReadyPipeSender`) can outlive the socket, e.g. inside
+  /// a session that never finished its handshake, so a parked `pop()` cannot rely on the ready
+  /// list becoming disconnected; it is woken through the list and checks this flag instead.
+  closed: AtomicBool,
 }
 
 impl<T: Send + 'static> ReadyPipeQueue<T> {
@@ -189,7 +193,26 @@ impl<T: Send + 'static> ReadyPipeQueue<T> {
       pipes: Arc::new(RwLock::new(HashMap::new())),
       ready_rx: rx,
       ready_tx: tx,
+      closed: AtomicBool::new(false),
     }
+  }
+
+  /// Puts a placeholder entry on the ready list so that one parked `pop()` wakes up, sees the
+  /// closed flag and (by calling this again) wakes the next one.
+  fn wake_one_waiter_after_close(&self) {
+    let (tx, rx) = spsc::bounded_async(1);
+    let placeholder = Arc::new(PipeSlot {
+      pipe_id: usize::MAX,
+      tx,
+      rx,
+      reserved_count: AtomicUsize::new(0),
+      queued_count: AtomicUsize::new(0),
+      lwm: 0,
+      audit_reported: AtomicBool::new(false),
+      #[cfg(feature = "io-uring")]
+      uring_wakeup: Arc::new(OnceLock::new()),
+    });
+    let _ = self.ready_tx.try_send(placeholder);
   }
 
   pub fn register_pipe(
@@ -237,12 +260,20 @@ impl<T: Send + 'static> ReadyPipeQueue<T> {
 
   pub async fn pop(&self) -> Result<(usize, T), ZmqError> {
     loop {
+      if self.closed.load(Ordering::Acquire) {
+        self.wake_one_waiter_after_close();
+        return Err(ZmqError::InvalidState("ready queue closed"));
+      }
       let slot = match self.ready_rx.recv().await {
         Ok(s) => s,
         Err(RecvError::Disconnected) => {
           return Err(ZmqError::InvalidState("ready queue closed"));
         }
       };
+      if self.closed.load(Ordering::Acquire) {
+        self.wake_one_waiter_after_close();
+        return Err(ZmqError::InvalidState("ready queue closed"));
+      }
 
       verif_point!("pop:took_ready_entry");
       match slot.rx.try_recv() {
@@ -297,6 +328,9 @@ impl<T: Send + 'static> ReadyPipeQueue<T> {
   }
 
   pub fn try_pop(&self) -> Option<(usize, T)> {
+    if self.closed.load(Ordering::Acquire) {
+      return None;
+    }
     loop {
       let slot = match self.ready_rx.try_recv() {
         Ok(s) => s,
@@ -350,8 +384,10 @@ impl<T: Send + 'static> ReadyPipeQueue<T> {
   }
 
   pub fn close(&self) {
+    self.closed.store(true, Ordering::Release);
     self.pipes.write().clear();
-    self.ready_tx.close();
+    // Our own handle stays open so that woken waiters can pass the wake-up on.
+    self.wake_one_waiter_after_close();
   }
 }
 
